@@ -183,6 +183,9 @@ func (g *Gen) setup() {
 					op.L = append(op.L, v.Idx)
 				}
 			}
+			for _, v := range w.Delegators { // the attacker's own second accounts
+				op.L = append(op.L, v.Idx)
+			}
 		}
 		if g.p.Staking && len(w.Validators) > 0 && r.Chance(0.6) {
 			op.V = w.Validators[r.Intn(len(w.Validators))].Idx + 1
@@ -598,6 +601,23 @@ func (g *Gen) genKind(k string) *Op {
 			return nil
 		}
 		m := ms[r.Intn(len(ms))]
+		if r.Chance(0.5) {
+			// several renewals in a row on the same model
+			best := -1
+			for _, x := range ms {
+				if o, ok := s.Order.Orders[s.Model.Metas[x.id].OrderId]; ok && o.Operation == 3 {
+					n := 0
+					for _, sid := range o.Shards {
+						if sh, ok := s.Order.Shards[sid]; ok {
+							n += len(sh.RenewInfos)
+						}
+					}
+					if n > best {
+						best, m = n, x
+					}
+				}
+			}
+		}
 		gw, _ := g.gatewayFor()
 		if gw == nil {
 			return nil
@@ -775,7 +795,7 @@ func (g *Gen) genKind(k string) *Op {
 					op.A = a.Idx // the accused declares recovery itself
 				}
 				if r.Chance(0.25) {
-					op.Mis = []string{"order", "data", "noshard", "commit", "shard", "provider"}[r.Intn(6)]
+					op.Mis = []string{"order", "data", "noshard", "commit", "shard", "provider", "xorder", "xorder"}[r.Intn(8)]
 				}
 				return op
 			}
@@ -1076,6 +1096,11 @@ func (g *Gen) genAdv() *Op {
 		}
 		d := g.nextData
 		g.nextData++
+		if len(w.Delegators) > 0 && r.Chance(0.5) {
+			// submitted by an account the attacker listed for its own node, claiming that node as provider
+			a2 := g.pickActor(w.Delegators)
+			return &Op{K: "store", A: a2.Idx, Prov: adv.Idx + 1, PP: gw.Idx + 1, Own: owner.Idx + 1, D: d, Mode: "new", Rep: 1, Dur: 3600, Tmo: g.drawTmo(), Size: g.sizes(), Note: "adv:relay-via-own-list"}
+		}
 		return &Op{K: "store", A: adv.Idx, Prov: adv.Idx + 1, PP: gw.Idx + 1, Own: owner.Idx + 1, D: d, Mode: "new", Rep: 1, Dur: 3600, Tmo: g.drawTmo(), Size: g.sizes(), Note: "adv:relay"}
 	case 9: // sponsor charged without submitting
 		sp := g.pickActor(w.Sponsors)
